@@ -17,6 +17,9 @@ pub struct Cell {
     pub spec: Spec,
     /// XZ options that cannot be expressed through `Spec` (raw filter list)
     pub xz_raw_filters: Option<Vec<(u8, u32)>>,
+    /// `LZMAWriter::new(out, options, use_header, use_end_marker, expected size given)`: the general
+    /// constructor, every combination of its three framing arguments
+    pub lzma_new: Option<(bool, bool, bool)>,
     pub in_range: bool,
 }
 
@@ -53,6 +56,7 @@ pub fn grid() -> Vec<Cell> {
                     field: format!("{field} [{mname}]"),
                     spec: Spec { c: cc, o },
                     xz_raw_filters: None,
+                    lzma_new: None,
                     in_range,
                 });
             };
@@ -145,12 +149,50 @@ pub fn grid() -> Vec<Cell> {
                     field: format!("filters: {fname}"),
                     spec: Spec { c: Container::Xz { check: 4, block: None, filters: vec![] }, o: base(false) },
                     xz_raw_filters: Some(chain),
+                    lzma_new: None,
                     in_range: ok,
                 });
             }
         }
     }
+    // the general LZMAWriter constructor: header x end marker x expected size. What the reader gets is
+    // what the stream itself carries (header) or what a container would store next to a raw stream
+    // (properties, dictionary size, and the uncompressed size - 7z stores it). Every combination that
+    // is accepted must therefore be decodable; a header that announces "size unknown" without an end
+    // marker describes a stream no reader can delimit.
+    for header in [false, true] {
+        for marker in [false, true] {
+            for sized in [false, true] {
+                for normal in [false, true] {
+                    let c = match (header, marker, sized) {
+                        (true, _, _) => Container::LzmaHeaderSized,
+                        (false, true, false) => Container::LzmaRawMarker,
+                        (false, _, _) => Container::LzmaRawSized,
+                    };
+                    cells.push(Cell {
+                        writer: "LZMAWriter::new",
+                        field: format!("use_header={header},use_end_marker={marker},expected_size={} [{}]", if sized { "given" } else { "none" }, if normal { "normal/bt4" } else { "fast/hc4" }),
+                        spec: Spec { c, o: base(normal) },
+                        xz_raw_filters: None,
+                        lzma_new: Some((header, marker, sized)),
+                        // the undecidable combination may be rejected; all others are documented usage
+                        in_range: !(header && !marker && !sized),
+                    });
+                }
+            }
+        }
+    }
     cells
+}
+
+fn lzma_new_encode(o: &LZMAOptions, (header, marker, sized): (bool, bool, bool), data: &[u8]) -> std::io::Result<Vec<u8>> {
+    use std::io::Write;
+    let mut w = lzma_rust2::LZMAWriter::new(Vec::new(), o, header, marker, if sized { Some(data.len() as u64) } else { None })?;
+    if let Err(e) = w.write_all(data) {
+        let _ = w.finish();
+        return Err(e);
+    }
+    w.finish()
 }
 
 pub const INPUTS: [(&str, usize); 4] = [("empty", 0), ("1-byte", 1), ("10KiB-text", 10_240), ("100KiB-random", 102_400)];
@@ -169,11 +211,16 @@ fn xz_encode_raw(o: &LZMAOptions, chain: &[(u8, u32)], data: &[u8]) -> std::io::
         x.prepend_pre_filter(filter_type(*id), *prop);
     }
     let mut w = lzma_rust2::XZWriter::new(Vec::new(), x)?;
-    w.write_all(data)?;
+    // a caller's clean-up path calls finish() also after a failed write: it must not panic
+    if let Err(e) = w.write_all(data) {
+        let _ = w.finish();
+        return Err(e);
+    }
     w.finish()
 }
 
 pub fn run_case(ctx: &Ctx, idx: u64) -> Vec<CaseOut> {
+    crate::ours::FINISH_AFTER_ERROR.store(true, std::sync::atomic::Ordering::Relaxed);
     let g = grid();
     let cell = &g[idx as usize % g.len()];
     let mut r = Rng::new(ctx.seed ^ (idx.wrapping_mul(0x9E37_79B9)));
@@ -195,10 +242,12 @@ pub fn run_case(ctx: &Ctx, idx: u64) -> Vec<CaseOut> {
         stat_add("grid_evaluations", 1);
         let spec = cell.spec.clone();
         let raw = cell.xz_raw_filters.clone();
+        let lzma_new = cell.lzma_new;
         let d2 = data.clone();
-        let enc = mt::guarded(8000, 240_000, move || match &raw {
-            Some(chain) => xz_encode_raw(&spec.o, chain, &d2),
-            None => encode(&spec, &d2, &[d2.len()], 0),
+        let enc = mt::guarded(8000, 240_000, move || match (&raw, lzma_new) {
+            (Some(chain), _) => xz_encode_raw(&spec.o, chain, &d2),
+            (None, Some(args)) => lzma_new_encode(&spec.o, args, &d2),
+            (None, None) => encode(&spec, &d2, &[d2.len()], 0),
         });
         let bytes = match enc {
             Guarded::Done(Ok(b)) => b,
